@@ -42,6 +42,9 @@ pub enum DataVerifierError {
         peer_id: String,
     },
 
+    #[error("trace refers to a CID that is absent from the {store} store: {cid:?}")]
+    MissingCidReference { store: &'static str, cid: Rc<CidRef> },
+
     #[error(
         "inconsistent CID multisets on merge for peer {peer_id:?}, prev: {larger_cids:?}, current: {smaller_cids:?}"
     )]
